@@ -39,7 +39,7 @@ COMPONENTS = {
     "real": ["EnsembleOptimizer._get_completed_variables / nested result handling", "EnsembleEvaluator._expand_gradients", "samplers", "SciPy plug-in (family 2)", "VariableScaler"],
     "stub": ["SimEvaluator", "sim/scripted optimizer", "simwrap recorder", "sim/inject sampler"],
 }
-PROBES = ["rows_checked", "results_checked", "gradient_zero_checked", "fixed_variable_present", "all_free_mask", "single_free_mask",
+PROBES = ["relative_on_unbounded_fixed_rejected", "rows_checked", "results_checked", "gradient_zero_checked", "fixed_variable_present", "all_free_mask", "single_free_mask",
           "nested_inner_result_delivered", "nested_rows_checked", "backend_sees_free_only", "real_backend", "several_samplers",
           "with_variable_transform", "perturbed_rows_checked", "multi_step"]
 REAL = ["slsqp", "nelder-mead", "differential_evolution"]
@@ -75,6 +75,22 @@ def generate(seed: int, index: int, tier: str) -> dict:
             scn["transforms"] = None
     if not all(mask):
         cfg["variables"]["mask"] = mask
+    if family == 0 and not all(mask) and counter % 3 == 0:
+        # relative perturbation magnitudes next to a fixed variable without finite bounds: the library may refuse
+        # the configuration, but if it runs the fixed entries must stay what they are (inf * 0 is NaN)
+        x0 = cfg["variables"]["initial_values"]
+        lbs, ubs = [], []
+        for i in range(n):
+            if mask[i]:
+                lbs.append(round(x0[i] - rng.uniform(0.5, 2.0), 3)); ubs.append(round(x0[i] + rng.uniform(0.5, 2.0), 3))
+            else:
+                side = rng.choice(["both", "lower", "upper"])
+                lbs.append(-gen.INF if side in ("both", "lower") else round(x0[i] - 1.0, 3))
+                ubs.append(gen.INF if side in ("both", "upper") else round(x0[i] + 1.0, 3))
+        cfg["variables"]["lower_bounds"], cfg["variables"]["upper_bounds"] = lbs, ubs
+        cfg["gradient"]["perturbation_types"] = rng.choice([2, [2] * n, [2 if (not mask[i] or rng.random() < 0.5) else 1 for i in range(n)]])
+        cfg["gradient"]["perturbation_magnitudes"] = round(rng.uniform(0.01, 0.1), 3)
+        scn["may_reject"] = True
     # every point a back-end or a step may start from lies inside the bounds (the quantifier's
     # "initial values inside the bounds"); given as optimizer-domain images
     tm0 = TransformModel(scn.get("transforms"), n, 1, 0)
@@ -309,6 +325,10 @@ def execute(scn: dict) -> dict:
                              "detail": f"callback variables of shape {np.asarray(r['x']).shape} with mask {mask0.tolist()}"})
                 break
     for e in ctx.exits:
+        if e[0] == "exception" and scn.get("may_reject") and not ctx.evaluator.calls and (
+                "ValidationError" in str(e[2]) or "ConfigError" in str(e[2])):
+            probe("relative_on_unbounded_fixed_rejected")
+            continue
         if e[0] == "exception":
             viol.append({"clause": "run-raised", "sig": {"what": str(e[2]).split(":")[0], "family": scn["stratum"]}, "detail": f"{e}"})
     key = (scn["stratum"], nv, str(cfgs[0]["variables"].get("mask")), str(cfgs[0]["gradient"].get("samplers")),
